@@ -225,6 +225,7 @@ func guard(t *testing.T, target, mode string, fn func() bool, args ...any) {
 	st.Execs++
 
 	done := make(chan result, 1)
+	ng0 := runtime.NumGoroutine()
 	a0 := heapAllocs()
 	cpu0 := time.Duration(-1)
 	wall0 := time.Now()
@@ -265,6 +266,7 @@ wait:
 		t.Fatalf("VERIF-HANG key=%s after=%v", rep.Key, hangAfter)
 		return
 	}
+	quiesce(ng0)
 	delta := heapAllocs() - a0
 	bound := allocBase + allocSlope*uint64(total)
 	if res.ok {
@@ -283,6 +285,7 @@ wait:
 		go func() { res2 <- runRecovered(fn) }()
 		select {
 		case <-res2:
+			quiesce(ng0)
 			runtime.ReadMemStats(&m1)
 			delta = m1.TotalAlloc - m0.TotalAlloc
 		case <-time.After(10 * hangAfter):
@@ -343,6 +346,21 @@ wait:
 	}
 }
 
+// quiesce waits (bounded) until the goroutines a decode left behind have
+// finished, so that their allocations fall into the measurement window of the
+// call that started them: some decoders work asynchronously (the filesystem
+// PackWriter parses the pack in a goroutine of its own and may still be
+// allocating when UpdateObjectStorage has already returned an error).
+func quiesce(ng0 int) {
+	for i := 0; i < 120 && runtime.NumGoroutine() > ng0; i++ {
+		if i < 20 {
+			runtime.Gosched()
+		} else {
+			time.Sleep(time.Millisecond)
+		}
+	}
+}
+
 var allocSample = []metrics.Sample{{Name: "/gc/heap/allocs:bytes"}}
 
 func heapAllocs() uint64 {
@@ -399,6 +417,7 @@ func allocSite(fn func() bool, measured uint64) (site string, bytes int64, detai
 		}
 	}
 	before := snap()
+	ng0 := runtime.NumGoroutine()
 	done := make(chan result, 1)
 	go func() { done <- runRecovered(fn) }()
 	select {
@@ -406,6 +425,7 @@ func allocSite(fn func() bool, measured uint64) (site string, bytes int64, detai
 	case <-time.After(10 * hangAfter):
 		return "", 0, "profiled re-run did not return"
 	}
+	quiesce(ng0)
 	after := snap()
 	bySite := map[string]int64{}
 	for k, r := range after {
@@ -460,7 +480,7 @@ func allocSite(fn func() bool, measured uint64) (site string, bytes int64, detai
 		}
 		fmt.Fprintf(&sb, "%s=%dB; ", e.k, e.v)
 	}
-	if uint64(all[0].v)*8 < measured {
+	if uint64(all[0].v)*3 < measured {
 		// the profiled re-run does not show where the measured volume came from
 		// (non-deterministic decode): do not invent a key from a minor site
 		return "", all[0].v, "profiled re-run does not account for the measured volume: " + sb.String()
